@@ -106,6 +106,34 @@ def run(ctx):
             if isinstance(g, tuple) and g[0] == 'call' and cname(g[1]).split('::')[-1] in ('ne', 'eq'):
                 want = True if cname(g[1]).endswith('::ne') else False
                 ok_err = ok_err or v is want
+    # the comparison must be between the whole stored entry and the whole new joint (derived equality over every field)
+    whole = False
+    cmp_found = None
+    for bi, t2 in cm.calls():
+        n2 = cname(callee_name(t2)).split('::')[-1]
+        if n2 in ('ne', 'eq'):
+            gen = str(t2['callee'].get('args', ''))
+            a = [cm.op_term(x, (bi, None)) for x in t2['args']]
+            cmp_found = '%s on %s: %s vs %s' % (n2, gen, show(a[0], maxdepth=4), show(a[1], maxdepth=4))
+            a0, a1 = strip(a[0]), strip(a[1])
+            lhs_entry = isinstance(a0, tuple) and a0[0] == 'fld' and a0[2] == '0' and 'HashMap::get' in show(a0, maxdepth=4)
+            rhs_joint = util.loop_source(a1) is not None
+            swapped = isinstance(a1, tuple) and a1[0] == 'fld' and a1[2] == '0' and 'HashMap::get' in show(a1, maxdepth=4) and util.loop_source(a0) is not None
+            whole = gen.count('urdf::JointData') == 2 and ((lhs_entry and rhs_joint) or swapped)
+    eqb = [b for p2, b in prog.bodies.items() if p2 == '<urdf::JointData as std::cmp::PartialEq>::eq']
+    allf = False
+    if len(eqb) == 1:
+        ctx.fn(eqb[0])
+        used = set()
+        for blk in eqb[0].blocks:
+            txt = str(blk)
+            for fdef in prog.adts['urdf::JointData']['variants'][0]['fields']:
+                if "'name': '%s'" % fdef['name'] in txt:
+                    used.add(fdef['name'])
+        allf = used == {fdef['name'] for fdef in prog.adts['urdf::JointData']['variants'][0]['fields']}
+    ctx.check(whole and allf, 'R20.3', 'duplicates/whole-joint', cm.where(0), cm.path,
+              'a second joint of the same name must be compared with the stored one as a whole (name, origin, axis sign and limits)',
+              found='%s; equality covers all fields=%s' % (cmp_found, allf), detail=str(cmp_found))
     ctx.check(len(ins) == 1 and ok_ins and ok_err, 'R20.3', 'duplicates', cm.where(0), cm.path,
               'a joint must be inserted when its name is absent, skipped only when an identical one exists, and rejected (Err) when a different one has the same name',
               found='insert-on-absent=%s err-on-different=%s' % (ok_ins, ok_err))
